@@ -405,6 +405,7 @@ class PyFatFS(FS):
         if dir_entry.get_entry_size() > 0 and dir_entry.get_cluster() != 0:
             # Empty files have a cluster ID of 0
             self.fs.free_cluster_chain(dir_entry.get_cluster())
+            self.fs.flush_fat()
         del dir_entry
 
     def openbin(self, path: str, mode: str = "r",
